@@ -163,6 +163,13 @@ def run_case(tape, tier):
                     break
             elif op == "client_close":
                 c = lab.clients[i]
+                if c.cs is not None and tape.flag("clean_fin", 1, 2):
+                    # nothing unread in the client's kernel buffer: the close is a clean FIN (mid-handshake the server then
+                    # sees a TLS EOF) instead of the RST a close with unread data produces
+                    raw = getattr(c.cs, "sock", c.cs)
+                    if raw.inp is not None and raw.inp.rx:
+                        del raw.inp.rx[:]
+                    res.faults["client_clean_fin"] += 1
                 lab.as_owner("client%d" % i, c.close)
                 res.comparisons += 1
                 o = open_of("client%d" % i)
